@@ -38,6 +38,11 @@ pub enum Prog {
     /// staged bytes of its own when the second hand-over copies into it) or after both (2); then
     /// await_real_file on the global buffer
     NestedSwitch { second: Vec<usize>, switch_at: u8 },
+    /// ONE producer thread writes through two successive buffers (as a pipeline task does for
+    /// successive chromosomes): the first is switched mid-stream by the consumer, the second is
+    /// read back with len(); expect_closed_write.  Nothing of the first stream may show up in the
+    /// second (state parked per thread would).
+    Successive { second: Vec<usize> },
 }
 
 #[derive(Clone, Debug, Serialize, Deserialize)]
@@ -162,6 +167,27 @@ fn one_execution(s: &Scen) {
             h1.join().unwrap();
             h2.join().unwrap();
         }
+        Prog::Successive { second } => {
+            let chunks2 = payload(second, 100);
+            let all2: Vec<u8> = chunks2.iter().flatten().cloned().collect();
+            let (mut b1, w1) = TempFileBuffer::<Dest>::new(s.inmemory);
+            let (b2, w2) = TempFileBuffer::<Dest>::new(s.inmemory);
+            let (c1, c2, fl) = (chunks.clone(), chunks2.clone(), s.flush_after);
+            let h = loom::thread::spawn(move || {
+                produce(w1, &c1, fl);
+                produce(w2, &c2, None);
+            });
+            b1.switch(Dest::new(s.short_dest));
+            let d1 = b1.await_real_file();
+            assert_eq!(d1.data, all, "first of two successive buffers: destination bytes differ from the bytes written");
+            let len = b2.len().expect("len failed");
+            assert_eq!(len, all2.len() as u64, "len() = {} but {} bytes were written to the second buffer", len, all2.len());
+            let mut out = Dest::new(s.short_dest);
+            b2.expect_closed_write(&mut out).expect("expect_closed_write failed");
+            assert_eq!(out.data, all2, "second of two successive buffers: destination bytes differ from the bytes written");
+            record_outcome(&d1.calls);
+            h.join().unwrap();
+        }
         Prog::NestedSwitch { second, switch_at } => {
             let chunks2 = payload(second, 100);
             let all2: Vec<u8> = chunks2.iter().flatten().cloned().collect();
@@ -230,7 +256,7 @@ fn one_execution(s: &Scen) {
                     assert_eq!(len, all.len() as u64, "len() = {} but {} bytes were written", len, all.len());
                     record_outcome(&[len as usize]);
                 }
-                Prog::Nested { .. } | Prog::NestedSwitch { .. } => unreachable!(),
+                Prog::Nested { .. } | Prog::NestedSwitch { .. } | Prog::Successive { .. } => unreachable!(),
             }
             h.join().unwrap();
         }
@@ -340,6 +366,18 @@ impl Check for C12 {
                     (vec![1, 3, 1], vec![3, 1, 1], Some(2)),
                 ]
             };
+            // one producer thread, two successive buffers
+            for (a, b) in [(vec![1usize, 1], vec![1usize]), (vec![3, 1], vec![1, 3]), (vec![1], vec![])] {
+                v.push(Scen {
+                    writes: a,
+                    flush_after: None,
+                    inmemory,
+                    prog: Prog::Successive { second: b },
+                    bufwriter: false,
+                    preemption_bound: None,
+                    short_dest: false,
+                });
+            }
             // two-level stacks whose lower buffer is switched at each of the three possible moments
             for switch_at in 0..3u8 {
                 let list: Vec<(Vec<usize>, Vec<usize>, Option<usize>)> = if quick {
@@ -399,6 +437,9 @@ impl Check for C12 {
         out.count("distinct_delivery_patterns", n_out as u64);
         if n_out >= 2 {
             out.count("scenarios_with_2+_delivery_patterns", 1);
+        }
+        if matches!(s.prog, Prog::Successive { .. }) {
+            out.count("successive_buffer_scenarios", 1);
         }
         if matches!(s.prog, Prog::NestedSwitch { .. }) {
             out.count("nested_scenarios_with_switched_lower_buffer", 1);
